@@ -432,11 +432,12 @@ theorem tcbOk_listen (x : SideId) (seg : Segment) (iss : Seq) (mtu : U16) (t : T
 
 
 /-- the genuine exclusions for a segment arriving at side `x`: it is addressed to `x` and comes
-    from the peer's port; F-C12-2: no FIN while `SND.WL2` is unset; CLOSED: not the `SEQ = 0` reset -/
+    from the peer's port; CLOSED (neither a TCB nor a LISTEN binding): not the `SEQ = 0` reset.
+    Nothing is asked when the segment meets a TCB or a LISTEN binding. -/
 def ArrExcl (s : Sys) (x : SideId) (seg : Segment) : Prop :=
   seg.hdr.srcPort = x.peer.port ∧ seg.hdr.dstPort = x.port ∧
   match (s.side x).tcb with
-  | some t => ¬ Late t → seg.hdr.ctl.fin = false ∧ ∀ q ∈ t.incoming.segments, q.hdr.ctl.fin = false
+  | some _ => True
   | none =>
     match (s.side x).listen with
     | some _ => True
@@ -446,7 +447,6 @@ def Excl (s : Sys) (op : Op) : Prop :=
   match op with
   | .deliver x i => ∀ seg, s.nth i = some seg → ArrExcl s x seg
   | .inject x seg => ArrExcl s x seg
-  | .close x => ∀ t, (s.side x).tcb = some t → t.state ≠ .SynReceived
   | _ => True
 
 theorem arrOk_of_excl (s : Sys) (x : SideId) (seg : Segment) (hi : SysInv s) (he : ArrExcl s x seg) :
@@ -458,13 +458,12 @@ theorem arrOk_of_excl (s : Sys) (x : SideId) (seg : Segment) (hi : SysInv s) (he
   | some t =>
     rw [ht] at h3
     have ok := hi x t ht
-    exact ⟨ok.fresh, ok.idle, h3⟩
+    exact ⟨ok.fresh, ok.idle⟩
 
 theorem adm_of_excl (s : Sys) (op : Op) (hi : SysInv s) (he : Excl s op) : Adm s op := by
   cases op with
   | deliver x i => exact fun seg hn => arrOk_of_excl s x seg hi (he seg hn)
   | inject x seg => exact arrOk_of_excl s x seg hi he
-  | close x => exact he
   | emit x =>
     intro t ht
     have ok := hi x t ht
@@ -662,12 +661,10 @@ theorem runAdm_of_excl (s : Sys) (ops : List Op) (hi : SysInv s) (h : RunExcl s 
 
 /-! ## an executable check of `RunExcl` (for concrete runs) -/
 
-def lateB (t : Tcb) : Bool := t.state != .SynSent && t.state != .SynReceived
-
 def arrExclB (s : Sys) (x : SideId) (seg : Segment) : Bool :=
   seg.hdr.srcPort == x.peer.port && seg.hdr.dstPort == x.port &&
   match (s.side x).tcb with
-  | some t => lateB t || (!seg.hdr.ctl.fin && t.incoming.segments.all fun q => !q.hdr.ctl.fin)
+  | some _ => true
   | none =>
     match (s.side x).listen with
     | some _ => true
@@ -680,10 +677,6 @@ def exclB (s : Sys) (op : Op) : Bool :=
     | some seg => arrExclB s x seg
     | none => true
   | .inject x seg => arrExclB s x seg
-  | .close x =>
-    match (s.side x).tcb with
-    | some t => t.state != .SynReceived
-    | none => true
   | _ => true
 
 def runExclB : Sys → List Op → Bool
@@ -694,25 +687,13 @@ def runExclB : Sys → List Op → Bool
     | .ok (s', _) => runExclB s' ops
     | .error _ => true
 
-theorem late_of_B (t : Tcb) (h : lateB t = true) : Late t := by
-  unfold lateB at h
-  simp only [Bool.and_eq_true, bne_iff_ne] at h
-  exact h
-
 theorem arrExcl_of_B (s : Sys) (x : SideId) (seg : Segment) (h : arrExclB s x seg = true) : ArrExcl s x seg := by
   unfold arrExclB at h
   simp only [Bool.and_eq_true, beq_iff_eq] at h
   obtain ⟨⟨h1, h2⟩, h3⟩ := h
   refine ⟨h1, h2, ?_⟩
   cases ht : (s.side x).tcb with
-  | some t =>
-    rw [ht] at h3
-    dsimp only at h3 ⊢
-    intro hl
-    simp only [Bool.or_eq_true, Bool.and_eq_true, Bool.not_eq_true', List.all_eq_true] at h3
-    rcases h3 with e | ⟨e1, e2⟩
-    · exact absurd (late_of_B t e) hl
-    · exact ⟨e1, fun q hq => by simpa using e2 q hq⟩
+  | some t => trivial
   | none =>
     rw [ht] at h3
     dsimp only at h3 ⊢
@@ -730,10 +711,6 @@ theorem excl_of_B (s : Sys) (op : Op) (h : exclB s op = true) : Excl s op := by
     simp only [exclB, hn] at h
     exact arrExcl_of_B s x seg h
   | inject x seg => exact arrExcl_of_B s x seg h
-  | close x =>
-    intro t ht
-    simp only [exclB, ht, bne_iff_ne] at h
-    exact h
   | _ => trivial
 
 theorem runExcl_of_B (s : Sys) (ops : List Op) (h : runExclB s ops = true) : RunExcl s ops := by
